@@ -114,17 +114,17 @@ def c01(tier):
 # ------------------------------------------------------------------------------------------- C05
 @prop("C05",
       functions=["h3NeighborRotations", "directionForNeighbor", "_h3Rotate60ccw", "_h3Rotate60cw", "_h3RotatePent60ccw", "_h3LeadingNonZeroDigit", "_rotate60ccw", "_isBaseCellPentagon", "_baseCellIsCwOffset", "_isBaseCellPolarPentagon"],
-      bounds={"quick": "neighbour step closure/distinctness/symmetry: all valid cells of resolutions 0-6 and 15 x 6 directions; k=1 through gridDiskDistances, gridDiskDistancesUnsafe, gridRingUnsafe (and gridDisk, gridDiskDistancesSafe at res 0) and areNeighborCells on every pair of cells: res 0-1",
+      bounds={"quick": "neighbour step closure/distinctness/symmetry: all valid cells of resolutions 0-5 (closure also 15; pentagon-neighbour symmetry 0-3) x 6 directions; k=1 through every disk entry point at res 0 (unsafe/ring variants also res 1), gridDisksUnsafe on every pair of origins at res 0, areNeighborCells on every pair of res-0 cells",
               "thorough": "all valid cells of all 16 resolutions x 6 directions; k=1 disks and areNeighborCells end to end at res 0-3"},
       outside="k>=2 beyond res 0, globe-wrapping disks, sufficiency of maxGridDiskSize at large k",
       assumptions=["cells are constructed as cell(r) + assume(isValidCell), justified by C01.H1"],
       stubs=[])
 def c05(tier):
     js = []
-    qres = [0, 1, 2, 3, 4, 5, 6, 15]
+    qres = [0, 1, 2, 3, 4, 5, 15]
     for r in ALLRES:
-        t = "quick" if r in qres else "thorough"
         for kind in ("CLOSURE", "DISTINCT", "SYMHEX", "SYMPENT"):
+            t = "quick" if (r in qres and not (r == 15 and kind != "CLOSURE") and not (kind == "SYMPENT" and r >= 4)) else "thorough"
             j = J("nbr_%s_r%d" % (kind.lower(), r), "C05_nbr.c", ["-DRES=%d" % r, "-D" + kind], unwind=r + 2,
                   est=20 + 10 * r, tier=t, mem=("M" if kind == "SYMPENT" and r >= 3 else "S"), bound="all valid cells of resolution %d x all directions" % r, timeout=1800)
             if kind == "SYMPENT" and r >= 9:
@@ -140,7 +140,7 @@ def c05(tier):
     for r in (0, 1, 2, 3):
         t = "quick" if r <= 1 else "thorough"
         for fn, nm in enumerate(("gridDisk", "gridDiskDistances", "gridDiskDistancesSafe", "gridDiskDistancesUnsafe", "gridRingUnsafe")):
-            if t == "quick" and r == 1 and fn in (0, 2):
+            if t == "quick" and r == 1 and fn in (0, 1, 2):
                 tt = "thorough"
             else:
                 tt = t
@@ -151,9 +151,10 @@ def c05(tier):
             dl2["harness.%d" % k] = 17
         js += with_witness(J("k1_gridDisksUnsafe_r%d" % r, "C05_disk.c", ["-DDISKS2", "-DRES=%d" % r], unwind=max(r + 2, 4), us=dl2, est=300 + 300 * r, mem="M", tier=("quick" if r == 0 else "thorough"), timeout=3400, core=(r == 0), witness_expect=["disks error", "disks ok"],
                              bound="every pair of origins of res %d, k=1" % r), tier=("quick" if r == 0 else "thorough"))[0:(2 if r == 0 else 1)]
-        j = J("areNeighborCells_r%d" % r, "C05_disk.c", ["-DARENBR", "-DRES=%d" % r], unwind=max(r + 2, 4), us=DL, est=400 + 400 * r, mem="M", tier=t, timeout=3400, core=(r <= 1), bound="every pair of valid cells of res %d" % r)
-        js += with_witness(j, tier=t) if r == 1 else [j]
-    for r in (0, 2):
+        ta = "quick" if r == 0 else "thorough"
+        j = J("areNeighborCells_r%d" % r, "C05_disk.c", ["-DARENBR", "-DRES=%d" % r], unwind=max(r + 2, 4), us=DL, est=400 + 400 * r, mem="M", tier=ta, timeout=3400, core=(r <= 1), bound="every pair of valid cells of res %d" % r)
+        js += with_witness(j, tier=ta) if r == 0 else [j]
+    for r in (0,):
         js.append(J("areNeighborCells_err_r%d" % r, "C05_disk.c", ["-DARENBR_ERR", "-DRES=%d" % r], unwind=max(r + 2, 4), us=DL, est=60, mem="M", bound="valid cell of res %d vs any 64-bit word" % r))
     return js
 
@@ -626,8 +627,10 @@ def c14(tier):
     js += up7_lemma(10, checked=True)
     LL = {"cellToLocalIjk.%d" % i: 7 for i in range(6)}
     LL.update({"localIjkToCell.%d" % i: 7 for i in range(1, 7)})
+    # component: the local IJ chart the path is interpolated in is consistent (same harness as C09's IJ round trip)
+    js.append(J("chart_ijrt_r1", "C09_dist.c", ["-DIJRT", "-DRES=1", "-DIJB=64", "-DUPB=(1<<10)"], unwind=3, us=dict(LL, **{"localIjkToCell.0": 3}), unit_defs=UP7_DEFS_CHK, est=60, mem="M", bound="local IJ chart: all origins of res 1, |i|,|j| <= 64"))
     for r in (0, 1, 2, 3):
-        t = "quick" if r <= 1 else "thorough"
+        t = "quick" if r == 0 else "thorough"
         j = J("near_r%d" % r, "C14_path.c", ["-DNEAR", "-DRES=%d" % r, "-DUPB=(1<<10)"], unwind=r + 2, us=dict(LL, **{"localIjkToCell.0": r + 2, "gridPathCells.0": 3}), unit_defs=UP7_DEFS_CHK, est=300 + 300 * r, mem="M", tier=t, timeout=3400, core=(r <= 1),
               bound="a=b and all neighbour pairs of res %d" % r)
         js += with_witness(j, tier=t) if r == 0 else [j]
